@@ -21,7 +21,7 @@ vars == <<script, cfg, ns, nb, nin, l3, fin, pick>>
 \* its parameters in a second step keeps kinds with many parameter combinations from crowding out the others.
 
 Cfgs == [snd : {0, 2}, rcvS : {0, 1}, win0 : {1, 2, 50}, credit2 : {0, 2, 10}, aa2 : BOOLEAN, rcv2 : {0, 1},
-         shiftOut : {"0", "4294967290", "2147483648"}, dcOut : {"0", "4294967293"}, dcIn : {"0", "4294967292"}, mms : {0, 150}, buf : {1, 256}, mfs : {512, 4096}, lbuf : {256}]
+         shiftOut : {"0", "4294966293", "2147483648"}, dcOut : {"0", "4294966293"}, dcIn : {"0", "4294966294"}, mms : {0, 150}, buf : {1, 256}, mfs : {512, 4096}, lbuf : {256}]
 Init == script = <<>> /\ cfg \in Cfgs /\ ns = 0 /\ nb = 0 /\ nin = 0 /\ l3 = "att" /\ fin = FALSE /\ pick = <<"none", 0>>
 
 Weight == [Send1 |-> 3, Send3 |-> 2, Send13 |-> 1, InX |-> 2, Await |-> 1, SFlow |-> 2, Grant |-> 3, Disp |-> 3, In |-> 4, App2 |-> 5, PSettle |-> 1, Cancel |-> 1, Close3 |-> 1, Att3 |-> 2]
